@@ -122,6 +122,10 @@ def prior : String → Option Dir
   | "olddocs-wrong-hash" => some ⟨.parsed true false, .opens .old⟩
   | "olddocs-other-version" => some ⟨.parsed false true, .opens .old⟩
   | "olddocs-no-hash" => some ⟨.parsed true false, .opens .old⟩
+  | "foreign-other-version" => some ⟨.parsed false true, .opens .old⟩
+  | "foreign-meta-missing" => some ⟨.absent, .opens .old⟩
+  | "partial-meta-missing" => some ⟨.absent, .opens .old⟩
+  | "partial-other-version" => some ⟨.parsed false true, .opens .old⟩
   | _ => none
 
 /-- Damage done to the data directory between two starts (the states the property
